@@ -7,6 +7,7 @@ import (
 	"go/parser"
 	"go/token"
 	"go/types"
+	"regexp"
 	"strconv"
 	"strings"
 )
@@ -19,6 +20,7 @@ type specEnv struct {
 	cur     *state
 	pre     *state
 	lookup  func(string) (binding, bool)
+	phiOf   func(int, string) (binding, bool)
 	pkgPath string
 }
 
@@ -269,6 +271,15 @@ func (env *specEnv) tr(x ast.Expr) (string, types.Type, error) {
 		// pkg.Name ?
 		if id, ok := n.X.(*ast.Ident); ok {
 			if _, isVar := env.ident(id.Name); !isVar {
+				if path, ok := e.p.specs.Aliases[env.pkgPath][id.Name]; ok {
+					for _, p := range e.p.ssa.AllPackages() {
+						if p.Pkg.Path() == path {
+							if obj := p.Pkg.Scope().Lookup(n.Sel.Name); obj != nil {
+								return env.object(obj)
+							}
+						}
+					}
+				}
 				if pk := env.pkgScope(); pk != nil {
 					for _, imp := range pk.Imports() {
 						if imp.Name() == id.Name {
@@ -569,6 +580,9 @@ func (env *specEnv) binary(n *ast.BinaryExpr) (string, types.Type, error) {
 	case token.SUB:
 		return app("-", xt, yt), rt, nil
 	case token.MUL:
+		if !real && !isNumeral(xt) && !isNumeral(yt) && !boundVarRe.MatchString(xt) && !boundVarRe.MatchString(yt) {
+			env.e.product(xt, yt)
+		}
 		return app("*", xt, yt), rt, nil
 	case token.QUO:
 		if real {
@@ -579,6 +593,16 @@ func (env *specEnv) binary(n *ast.BinaryExpr) (string, types.Type, error) {
 		return app("tmod", xt, yt), rt, nil
 	}
 	return "", nil, fmt.Errorf("unsupported operator %s in spec", n.Op)
+}
+
+var boundVarRe = regexp.MustCompile(`(^|[ (])(q\d+|gp)\.`)
+
+func isNumeral(t string) bool {
+	if strings.HasPrefix(t, "(- ") {
+		t = strings.TrimSuffix(t[3:], ")")
+	}
+	_, err := strconv.ParseInt(t, 10, 64)
+	return err == nil
 }
 
 func toReal(t string) string {
@@ -621,6 +645,21 @@ func (env *specEnv) call(n *ast.CallExpr) (string, types.Type, error) {
 		n2 := *env
 		n2.cur = env.pre
 		return n2.tr(n.Args[0])
+	case "phi": // phi(L, name): value of variable `name` at the header of loop L (its value when the loop was left)
+		if len(n.Args) != 2 || env.phiOf == nil {
+			return "", nil, fmt.Errorf("phi(loop, name) is only available in exit clauses")
+		}
+		lit, ok1 := n.Args[0].(*ast.BasicLit)
+		id, ok2 := n.Args[1].(*ast.Ident)
+		if !ok1 || !ok2 {
+			return "", nil, fmt.Errorf("phi(loop, name)")
+		}
+		l, _ := strconv.Atoi(lit.Value)
+		b, ok := env.phiOf(l, id.Name)
+		if !ok {
+			return "", nil, fmt.Errorf("phi(%d, %s): no such loop variable", l, id.Name)
+		}
+		return b.term, b.typOrKind(), nil
 	case "forall", "exists":
 		if len(n.Args) != 4 {
 			return "", nil, fmt.Errorf("%s(i, lo, hi, body)", fname)
@@ -704,6 +743,12 @@ func (env *specEnv) call(n *ast.CallExpr) (string, types.Type, error) {
 		return "", nil, fmt.Errorf("len of %s", tys[0])
 	case "cap":
 		return app("s.cap", ts[0]), tInt, nil
+	case "mem": // mem(s): the current element memory of slice s, as an array value
+		sl, ok := tys[0].Underlying().(*types.Slice)
+		if !ok {
+			return "", nil, fmt.Errorf("mem(s): s must be a slice")
+		}
+		return e.get(env.cur, e.memRegion(sl.Elem())), types.NewArray(sl.Elem(), 1<<40), nil
 	case "base":
 		return app("s.base", ts[0]), tInt, nil
 	case "in": // in(k, m): map membership
@@ -870,6 +915,18 @@ func (e *Enc) useGhostFunc(gf *GhostFunc) {
 	t, _, err := env.expr(gf.Body)
 	if err != nil {
 		e.errf("ghost func %s: %v", gf.Name, err)
+		return
+	}
+	if gf.Opaque {
+		var as []string
+		for _, p := range gf.Params {
+			as = append(as, "gp."+p.Name)
+		}
+		call := app("gf."+gf.Name, as...)
+		e.ghostDecls = append(e.ghostDecls, fmt.Sprintf("(declare-fun gf.%s (%s) %s)", gf.Name, strings.Join(pss, " "), ghostSort(gf.Result)))
+		if e.rootSpec != nil && e.rootSpec.Options["reveal:"+gf.Name] != "" {
+			e.ghostDecls = append(e.ghostDecls, fmt.Sprintf("(assert (forall (%s) (! (= %s %s) :pattern (%s))))", strings.Join(ps, " "), call, t, call))
+		}
 		return
 	}
 	e.ghostDecls = append(e.ghostDecls, fmt.Sprintf("(define-fun gf.%s (%s) %s %s)", gf.Name, strings.Join(ps, " "), ghostSort(gf.Result), t))
